@@ -89,8 +89,21 @@ macro_rules! dataset_views {
                                 "res":ok_or_err(r.map(|_| true)),"rows":quads_of(&d)}));
                         } else if k < 92 {
                             // read through a view, plain or with a pattern
-                            let pat = rng.chance(1, 2);
-                            let ms = if pat {
+                            let pat = rng.chance(2, 3);
+                            let aimed = if pat && rng.chance(1, 2) {
+                                let rows: Vec<Value> = d.quads().map(|q| q.unwrap()).map(|q| quad_json(q.s(), q.p(), q.o(), q.g())).collect();
+                                aimed_ms(rng, &rows, &terms, &gnames, false)
+                            } else { None };
+                            let ms = if let Some((ms, _)) = aimed {
+                                if rng.chance(1, 3) {
+                                    // all three positions bound: the store's "spo constant, graph matcher not constant" arm
+                                    let c = |m: &TM, rng: &mut Rng| m.constant().cloned().map(|t| TM::Opt(Some(t))).unwrap_or_else(|| TM::Arr1([rng.pick(&terms).clone()]));
+                                    use sophia_api::term::matcher::TermMatcher;
+                                    [c(&ms[0], rng), c(&ms[1], rng), c(&ms[2], rng)]
+                                } else {
+                                    ms
+                                }
+                            } else if pat {
                                 [TM::random(rng, &terms, 0), TM::random(rng, &terms, 0), TM::random(rng, &terms, 0)]
                             } else {
                                 [TM::Any, TM::Any, TM::Any]
